@@ -36,6 +36,10 @@ SigEdit ==
      \* two neighbouring messages exchanged (near the start, in the middle, at the end), and the second with the last
      \/ \E p \in SwapPos(L) : Step(Verify(SH, 1, o.s, o.hdr, [o.msgs EXCEPT ![p] = o.msgs[p + 1], ![p + 1] = o.msgs[p]]))
      \/ L >= 4 /\ o.msgs[2] # o.msgs[L] /\ Step(Verify(SH, 1, o.s, o.hdr, [o.msgs EXCEPT ![2] = o.msgs[L], ![L] = o.msgs[2]]))
+     \* two messages a block apart exchanged (blocks of 32, 64, 128, 256 positions)
+     \/ \E d \in {32, 64, 128, 256} : \E p \in {1, 2} :
+           /\ p + d <= L /\ o.msgs[p] # o.msgs[p + d]
+           /\ Step(Verify(SH, 1, o.s, o.hdr, [o.msgs EXCEPT ![p] = o.msgs[p + d], ![p + d] = o.msgs[p]]))
   /\ pc' = "done"
 SigUpdate ==
   /\ pc = "sig"
@@ -96,6 +100,14 @@ BlindEdit ==
      \/ \E p \in Positions(Len(o.msgs)) : Step(VerifyBlind(SH, 1, o.s, o.hdr, [o.msgs EXCEPT ![p] = FRESH], c, BlOf(1)))
      \/ Step(VerifyBlind(SH, 1, o.s, o.hdr, o.msgs, c, NoBl))
   /\ pc' = "done"
+\* the signer is shown a commitment (to many messages) with one response or the point replaced
+ShapeBadCommit ==
+  /\ pc = "commit"
+  /\ LET M == Len(objs[1].cms) IN
+     \/ \E j \in {1, 2, M + 2} : Step(Tamper(1, {j}, 0))        \* s^, m^_1, m^_M
+     \/ Step(Tamper(1, {101}, 0))
+  /\ pc' = "badcommit"
+ShapeSignBad == /\ pc = "badcommit" /\ Step(BlindSignA(1, objs[1].s, NObj, << 1 >>, << << 1 >> >>)) /\ pc' = "done"
 DoBlindGen ==
   /\ pc = "bsig"
   /\ LET o == objs[SH]  c == objs[1].cms IN
@@ -146,7 +158,7 @@ Next == \/ Setup
         \/ (Fam \in {"sig", "proof", "all"} /\ DoSign)
         \/ (Fam \in {"sig", "all"} /\ (SigHonest \/ SigEdit \/ SigUpdate \/ AfterUpdate))
         \/ (Fam \in {"proof", "all"} /\ (DoGen \/ ProofHonest \/ ProofEdit \/ ProofResize \/ AfterResize))
-        \/ (Fam \in {"blind", "all"} /\ (DoCommit \/ DoBlindSign \/ BlindHonest \/ BlindEdit \/ DoBlindGen \/ BlindProofHonest \/ BlindProofEdit))
+        \/ (Fam \in {"blind", "all"} /\ (DoCommit \/ DoBlindSign \/ BlindHonest \/ BlindEdit \/ DoBlindGen \/ BlindProofHonest \/ BlindProofEdit \/ ShapeBadCommit \/ ShapeSignBad))
 
 MCInit == Init /\ pc = "setup" /\ hist = << >>
 =============================================================================
